@@ -4,7 +4,7 @@
 W="${EVALREPO:-/tmp/evalrepo}"
 for P in "$@"; do
   for N in 1 2 3; do
-    D=/tmp/w5-$P/out/m$N
+    D=${SEEDROOT:-/tmp/w5}-$P/out/m$N
     [ -f $D/patch.diff ] || continue
     cd $W || exit 2
     git checkout -q -- . ; git clean -fdq
